@@ -16,6 +16,8 @@ def expected(kind, key, args):
         return ("val", (key, "ident"))
     if kind == "leak":
         return ("val", (key, "leak"))
+    if kind == "spawn_child":
+        return ("val", (key, "spawned"))
     if kind == "raise":
         return ("exc", "ValueError", (key, "boom"), "_RemoteTraceback")
     if kind == "sysexit":
@@ -24,11 +26,16 @@ def expected(kind, key, args):
         return ("exc", "KeyboardInterrupt", (key,), "_RemoteTraceback")
     if kind == "unpicklable_result":
         return ("exc", "ValueError", ("result cannot be pickled",), "_RemoteTraceback")
-    if kind in ("bad_arg", "exit_arg", "slow_bad_arg", "index_arg", "key_arg"):
+    if kind in ("bad_arg", "exit_arg", "slow_bad_arg", "index_arg", "key_arg") or (
+            kind.endswith("_arg") and kind[:-4] in EXC_ARG_KINDS):
         return ("exc", "PicklingError", None, "_RemoteTraceback")
     if kind == "huge_arg":
         return ("exc", "RuntimeError", None, "_RemoteTraceback")
     return None     # outcome not pinned (die, bad_unpickle_*)
+
+
+from .tasks import EXC_ARGS as _EA
+EXC_ARG_KINDS = frozenset(_EA)
 
 
 def matches(f, exp):
@@ -276,6 +283,11 @@ def c06(rec):
     if rec.exit_done and unreaped:
         out.append(dict(signature=f"C06:workers-not-reaped|cause={c}",
                         msg=f"killed workers never reaped: {unreaped}"))
+    desc = [d["label"] for d in getattr(rec, "descendants", []) if d["alive"]]
+    if rec.exit_done and desc:
+        out.append(dict(signature=f"C06:descendants-left-alive|cause={c}",
+                        msg=f"descendant processes {desc} of the workers survived the forced "
+                            f"shutdown"))
     return out, _cls(rec)
 
 
@@ -345,9 +357,12 @@ def c08(rec):
     for o in rec.ops:
         if o["op"][0] == "expect_inside" and o.get("value") != o["op"][1] \
                 and not any(e["broken"] for e in rec.execs):
-            out.append(dict(signature=f"C08:not-delivered:{o.get('value')}of{o['op'][1]}|cause={c}",
+            qs = o.get("queue_size")
+            small = f":queue={qs}:cpus={o.get('cpus')}" if qs is not None and qs < o["op"][1] else ""
+            out.append(dict(signature=f"C08:not-delivered:{o.get('value')}of{o['op'][1]}{small}"
+                                      f"|cause={c}",
                             msg=f"with {o['op'][1]} long tasks pending on a healthy pool only "
-                                f"{o.get('value')} run simultaneously"))
+                                f"{o.get('value')} run simultaneously (call queue: {qs} slots)"))
     return out, _cls(rec) + (tuple(o.get("value") for o in rec.ops
                                    if o["op"][0] == "expect_inside"),)
 
@@ -466,7 +481,15 @@ def c09(rec):
         or bool(rec.policy.get("zero_when"))
     m = None          # model of the singleton: dict(id, kwargs, mw, broken, shutdown, started)
     next_id = 0
-    ops = [o for o in rec.ops if o["t"] == 0] if single else []
+    t0 = [o for o in rec.ops if o["t"] == 0]
+    if single:
+        ops, post = t0, []
+    else:
+        # thread 0 alone up to the op that starts the user threads, racing afterwards
+        k = next((i for i, o in enumerate(t0) if o["op"][0] == "start_users"), None)
+        if k is None:
+            k = next((i for i, o in enumerate(t0) if o["op"][0] in ("new", "reuse")), -1)
+        ops, post = t0[:k + 1], t0[k + 1:]
     for o in ops:
         name = o["op"][0]
         if name == "new":
@@ -538,6 +561,8 @@ def c09(rec):
                 out.append(dict(signature=f"C09:max-workers:{o['max_workers']}vs{want_mw}|cause={c}",
                                 msg=f"returned executor has _max_workers={o['max_workers']}, "
                                     f"{want_mw} requested"))
+    if not single and not v and not kill:
+        out += _c09_racing(rec, m, next_id, pool, post, c)
     if not single and not v:
         # racing callers: every one got an executor and its task completed
         for o in rec.ops:
@@ -551,6 +576,74 @@ def c09(rec):
                                           f"|cause={c}",
                                 msg=f"task {key} of a racing caller ended as {f[:3]}"))
     return out, _cls(rec) + (next_id,)
+
+
+def _c09_step(m, next_id, kw, pool):
+    """The documented decision of one get_reusable_executor call on the model singleton m:
+    -> (m', next_id', expected executor_id)."""
+    newkw = (kw.get("timeout", pool.get("timeout")), kw.get("init", pool.get("init")))
+    reuse = kw.get("reuse", "auto")
+    want_mw = kw.get("max_workers")
+    if want_mw is None:
+        want_mw = m["mw"] if (reuse is True and m is not None) else pool.get("cpu_count", 2)
+    if m is None:
+        fresh = True
+    else:
+        if reuse == "auto":
+            reuse = newkw == m["kwargs"]
+        fresh = bool(m["broken"] or m["shutdown"] or not reuse)
+    if fresh:
+        m = dict(id=next_id, kwargs=newkw, mw=want_mw, broken=False, shutdown=False,
+                 started=False)
+        next_id += 1
+    else:
+        m = dict(m, mw=want_mw)
+    return m, next_id, m["id"]
+
+
+def _merges(seqs):
+    """all interleavings of the given sequences that keep each sequence's own order"""
+    seqs = [s for s in seqs if s]
+    if not seqs:
+        yield []
+        return
+    for i, s in enumerate(seqs):
+        rest = seqs[:i] + [s[1:]] + seqs[i + 1:]
+        for tail in _merges(rest):
+            yield [s[0]] + tail
+
+
+def _c09_racing(rec, m, next_id, pool, post, c):
+    """get_reusable_executor is atomic: the executors handed to racing callers must be those
+    of the calls taken in SOME sequential order (brute force over the few interleavings of the
+    callers' call sequences), judged by executor_id."""
+    seqs = [[o for o in post if o["op"][0] == "reuse"]]
+    nthreads = len(rec.prog["threads"])
+    for t in range(1, nthreads):
+        seqs.append([o for o in rec.ops if o["t"] == t and o["op"][0] == "reuse"])
+    calls = [o for sq in seqs for o in sq]
+    if not calls or any(o["exc"] is not None or not o["returned"] or "id" not in o for o in calls):
+        return []
+    if any(o["op"][0] in ("kill", "shutdown") for o in rec.ops if o["t"] != 0) or \
+            any(o["op"][0] in ("kill", "shutdown") for o in post[:-1]):
+        return []
+    seen = set()
+    for order in _merges(seqs):
+        mm, nid = (dict(m) if m else None), next_id
+        ok = True
+        for o in order:
+            mm, nid, exp = _c09_step(mm, nid, o["op"][1], pool)
+            if o["id"] != exp:
+                ok = False
+                break
+        if ok:
+            return []
+        seen.add(tuple(id(o) for o in order))
+    got = [(o["t"], o["op"][1].get("max_workers"), o["id"]) for o in calls]
+    return [dict(signature=f"C09:racing-not-atomic:ids={sorted(o['id'] for o in calls)}|cause={c}",
+                 msg=f"racing get_reusable_executor calls (thread, max_workers, executor_id) "
+                     f"{got}: no sequential order of the calls yields these executors "
+                     f"(singleton before the race: {m and m['id']}, next id {next_id})")]
 
 
 # ---- C18 (simulation part): every worker that runs a task ran the initializer first --------
